@@ -26,6 +26,11 @@ impl Checker for C11 {
             for k in 1..=ex.rw_calls_last {
                 let plan = Plan { short_at: Some(k), ..self.plan() };
                 let sx = harness::sess::run(cfg, ops, &plan);
+                // the contract documents retryable errors for `read` and `write` only (io.rs): a seek or flush that
+                // answers "interrupted" is outside it
+                if !matches!(sx.fired.map(|f| f.kind), Some(harness::dev::Kind::Read | harness::dev::Kind::Write)) {
+                    continue;
+                }
                 for (sig, msg) in self.check_one(ops, &sx) {
                     let sig = sig.replace("C11/", "C11/single-short-transfer/");
                     if !v.iter().any(|(s, _)| *s == sig) {
@@ -34,8 +39,53 @@ impl Checker for C11 {
                 }
             }
         }
+        // one retryable ("interrupted") storage error at every device call of the last operation
+        if v.is_empty() && ex.panic.is_none() && cfg.short == Short::Exact && ops.len() <= 2 && ex.calls_last <= 800
+            && ["t12-f8-r16", "t32-f8-r0", "b16-res4-tail"].contains(&cfg.name.as_str())
+        {
+            for k in 1..=ex.calls_last {
+                let plan = Plan { fault: Some((k, harness::dev::ID_INTR)), ..self.plan() };
+                let sx = harness::sess::run(cfg, ops, &plan);
+                // the contract documents retryable errors for `read` and `write` only (io.rs): a seek or flush that
+                // answers "interrupted" is outside it
+                if !matches!(sx.fired.map(|f| f.kind), Some(harness::dev::Kind::Read | harness::dev::Kind::Write)) {
+                    continue;
+                }
+                for (sig, msg) in self.check_one(ops, &sx) {
+                    let sig = sig.replace("C11/", "C11/one-retryable-error/");
+                    if !v.iter().any(|(s, _)| *s == sig) {
+                        v.push((sig, format!("{msg} [device call {k} of the last operation answered with a retryable error]")));
+                    }
+                }
+            }
+        }
         v
     }
+}
+
+/// builder volume with free parameters (hidden sectors, root entries, cluster count)
+pub fn mk_free(width: u8, hidden: u32, root_entries: Option<u32>, clusters: Option<u64>, name: &str) -> Cfg {
+    let mut s = MkSpec::new(width);
+    s.hidden = hidden;
+    if let Some(r) = root_entries {
+        s.root_entries = r;
+    }
+    if let Some(c) = clusters {
+        s.clusters = c;
+    }
+    s.reserved = if width == 32 { 32 } else { 4 };
+    s.tail = 64 * 1024;
+    let mut b = Builder::new(s);
+    let last = b.geo.max_cluster();
+    let first = if width == 32 { 3 } else { 2 };
+    let keep: Vec<u32> = vec![first, first + 1, first + 2, first + 3, first + 4, last - 1, last];
+    b.ballast(&keep);
+    b.set_fsinfo(keep.len() as u32, 0xFFFF_FFFF);
+    let mut cands = keep.clone();
+    if width == 32 {
+        cands.push(2);
+    }
+    vol::cfg_from(name, b.finish(), Some(cands))
 }
 
 impl C11 {
@@ -131,6 +181,10 @@ pub fn mk_geo16(bps: u32, root_entries: u32, clusters: u64, name: &str) -> Cfg {
 /// hold the high word of the first cluster on FAT32 (an extended-attribute handle on other systems) carry junk. They
 /// are not part of the cluster number on FAT12/16
 pub fn foreign_hiword(cfg: &Cfg, cs: u32) -> Cfg {
+    foreign(cfg, cs, false)
+}
+
+pub fn foreign(cfg: &Cfg, cs: u32, low_eoc: bool) -> Cfg {
     use harness::sess::{DirRef, Plan};
     let r = DirRef::Root;
     let s = |x: &str| x.to_string();
@@ -171,9 +225,22 @@ pub fn foreign_hiword(cfg: &Cfg, cs: u32) -> Cfg {
     for c in subs {
         patch(&mut img, g.cluster_off(c) as usize, (g.cluster_size() / 32) as usize);
     }
+    if low_eoc {
+        // every chain ends with the lowest legal end-of-chain value instead of the highest one
+        let (hi, lo) = if g.width == 12 { (0xFFFu32, 0xFF8u32) } else { (0xFFFF, 0xFFF8) };
+        for cl in 2..=g.max_cluster() {
+            let (off, _) = g.fat_entry_off(0, cl);
+            let off = off as usize;
+            let w = u16::from_le_bytes([img[off], img[off + 1]]);
+            let v = if g.width == 12 { (if cl & 1 == 0 { w & 0x0FFF } else { w >> 4 }) as u32 } else { w as u32 };
+            if v == hi {
+                vol::set_fat(&mut img, &g, cl, lo);
+            }
+        }
+    }
     let mut c = cfg.clone();
     c.base = std::sync::Arc::new(harness::dev::Base::Bytes(img));
-    c.name = format!("{}-foreign-hiword", cfg.name);
+    c.name = format!("{}-foreign-{}", cfg.name, if low_eoc { "loweoc" } else { "hiword" });
     let mut m = ex.model.clone();
     m.close_all();
     m.changed_since_mount = false;
@@ -223,6 +290,14 @@ pub fn specs(tier: &str) -> Vec<ExpSpec> {
     }
     // FAT32 whose free clusters all lie above 0xFFFF
     cfgs.push((vol::t32_high(), 512));
+    {
+        cfgs.push((mk_free(16, 63, None, None, "b16-hidden63-tail"), 512));
+        cfgs.push((mk_free(32, 2048, None, None, "b32-hidden2048-tail"), 512));
+    }
+    {
+        cfgs.push((mk_free(16, 0, Some(24), None, "b16-root24-tail"), 512));
+        cfgs.push((mk_free(12, 0, Some(40), Some(40), "b12-root40-tail"), 512));
+    }
     let alpha_of = |cs: u32| {
         let mut a = alpha::mixed(cs);
         // dot entries as the target of remove / the source of rename
@@ -244,6 +319,12 @@ pub fn specs(tier: &str) -> Vec<ExpSpec> {
     for ft in [FatType::Fat12, FatType::Fat16] {
         let c = foreign_hiword(&vol::tiny_with(ft, 12, 16), 512);
         v.push(ExpSpec::new(c, alpha::mixed(512), if th { 4 } else { 3 }));
+    }
+    {
+        for ft in [FatType::Fat12, FatType::Fat16] {
+            let c = foreign(&vol::tiny_with(ft, 12, 16), 512, true);
+            v.push(ExpSpec::new(c, alpha::mixed(512), 3));
+        }
     }
     {
         // a file truncated to nothing and closed, volume remounted (FAT12/16 forget the allocation hint): whatever still
